@@ -1,3 +1,4 @@
+import DcmVerif.Props.Source_header
 import DcmVerif.Props.C20_time
 import DcmVerif.Props.C20_orient
 import DcmVerif.Props.C20_stack
